@@ -255,14 +255,20 @@ func SetContentType(w http.ResponseWriter, ct string) {
 		w.Header().Set("Content-Type", ct)
 		return
 	}
-	if strings.Contains(h, "+") {
+	// The suffix belongs to the media type, not to its parameters.
+	mt, params, _ := strings.Cut(h, ";")
+	if strings.Contains(mt, "+") {
 		return
 	}
 	suffix := "+json"
 	if ct == "application/xml" {
 		suffix = "+xml"
 	}
-	w.Header().Set("Content-Type", h+suffix)
+	h = strings.TrimSpace(mt) + suffix
+	if params != "" {
+		h += ";" + params
+	}
+	w.Header().Set("Content-Type", h)
 }
 
 func newTextEncoder(w io.Writer, ct string) Encoder {
